@@ -24,14 +24,26 @@ SCOPE = {
              "on every type, in three vocabularies (navigation: 1-2 hops, transitive, subType, a variable; + set operators; "
              "+ subType over a union), (ii) x 4 seeded models of 2-3 assets; "
              "error clause: every structure of <=2 types and a seeded quarter of the 3-type ones x every single dangling "
-             "reference (super asset, association end(s), 12 step-expression shapes, directly and via '+>' in a sub-type)",
+             "reference (super asset, association end(s), 12 step-expression shapes, directly and via '+>' in a sub-type); "
+             "+ every one of the 1679 structures saturated a fourth time with one step per (well-typed expression, step "
+             "OWNED by the type of the expression: its own o<T>, the inherited t of its root and o<ancestor>), e.g. "
+             "field[Sub].<step declared on a super type of Sub>, x 4 seeded models (instances of every concrete type, "
+             "super types of Sub included, behind the field); "
+             "+ associations that SHARE ROLE NAMES: every forest over <=3 types x every ordered pair of association ends "
+             "x 6 patterns of the second association re-using l0 / r0 (both, swapped, one of them on either end) x "
+             "{distinct, equal association names}, kept when no type gets two fields of one name (3248 structures; "
+             "includes two associations with the same name and the same two role names between different asset pairs, "
+             "and a type that is called r in an earlier association and has a field r through a later one): bare and "
+             "saturated (all operators, owned target steps) x 4 seeded models",
     "thorough": "same languages; 12 models of 1-3 assets each; error clause on every structure",
 }
 EXHAUSTIVE = {"quick": False, "thorough": False}
-RULE = ("case = (types with parents, associations, mode, dangling reference?, model seed); non-trivial when the language has "
+RULE = ("case = (types with parents, associations incl. their role names, mode, vocabulary, target steps (own / owned incl. "
+        "inherited), dangling reference?, model seed); non-trivial when the language has "
         "inheritance or an association (structure/full) or is ill-formed (ill); distinct = distinct recipe")
 ASSUMPTIONS = ["reference closure / participation / lookup / typing computed from the langspec dict (lib_lang)",
-               "role names are unique in a language (l0,r0,l1,r1); association names may repeat",
+               "role names are unique per type (no type has, itself or through an ancestor, two fields of one name - MAL "
+               "well-formedness); across associations role names and association names may repeat",
                "models keep links along associations that are used under a transitive operator acyclic (DESIGN defect (c) "
                "would make attack-graph generation run for ever otherwise); a model on which the classes factory, the model "
                "or the attack-graph generator raises is skipped for the over-approximation clause (other properties)",
@@ -48,6 +60,16 @@ def structures():
         for f in L.forests(names):
             for s in L.assoc_sets(names):
                 yield {"types": f, "assocs": s}
+
+
+def structures_shared_roles():
+    """structures whose two associations share at least one role name, well-formed ones only"""
+    for n in (2, 3):
+        names = NAMES[:n]
+        for f in L.forests(names):
+            for s in L.assoc_sets_shared_roles(names):
+                if L.roles_unambiguous(L.c15_spec({"types": f, "assocs": s, "mode": "structure"})):
+                    yield {"types": f, "assocs": s}
 
 
 def ill_variants(st):
@@ -97,6 +119,15 @@ def cases(tier, seed):
         if len(st["types"]) <= 2 or not quick or rnd.random() < 0.25:
             for ill in ill_variants(st):
                 yield {"types": st["types"], "assocs": st["assocs"], "mode": "ill", "ill": ill}
+    rnd2 = random.Random(seed + 1)          # own stream: the recipes above stay what they were
+    for st in structures():
+        if st["assocs"]:
+            yield {"types": st["types"], "assocs": st["assocs"], "mode": "full", "ops": "all", "targets": "owned",
+                   "models": 4 if quick else 12, "seed": rnd2.randrange(1 << 30)}
+    for st in structures_shared_roles():
+        yield {"types": st["types"], "assocs": st["assocs"], "mode": "structure"}
+        yield {"types": st["types"], "assocs": st["assocs"], "mode": "full", "ops": "all", "targets": "owned",
+               "models": 4 if quick else 12, "seed": rnd2.randrange(1 << 30)}
     # the language without any asset but with an association
     yield {"types": [], "assocs": [["L0", "Nope", "l0", "Nope2", "r0"]], "mode": "structure", "expect_error": True}
 
@@ -113,9 +144,24 @@ def _dup_names(spec):
     return False
 
 
+def _tag(spec):
+    """class of the association declarations, part of the failure signatures"""
+    if _dup_names(spec):
+        return "duplicate-association-name-same-ends"
+    A = spec["associations"]
+    for i, a in enumerate(A):
+        for b in A[i + 1:]:
+            if a["name"] == b["name"] and {a["leftField"], a["rightField"]} == {b["leftField"], b["rightField"]}:
+                return "same-name-and-roles-different-ends"
+    roles = [x for a in A for x in (a["leftField"], a["rightField"])]
+    if len(set(roles)) < len(roles):
+        return "shared-role-name"
+    return "plain"
+
+
 def _structure_clauses(r, spec, lg):
     names = [a["name"] for a in spec["assets"]]
-    tag = "duplicate-association-name-same-ends" if _dup_names(spec) else "plain"
+    tag = _tag(spec)
     r.check("C15.assets", sorted(a.name for a in lg.assets) == sorted(names), LG,
             "language-graph assets %s, declared %s" % ([a.name for a in lg.assets], names), "assets-differ")
     node = {a.name: a for a in lg.assets}
@@ -259,7 +305,7 @@ def run_case(recipe):
         r.nontrivial_key = json.dumps(recipe, sort_keys=True)
         return r
     if exc is not None:
-        tag = "duplicate-association-name-same-ends" if _dup_names(spec) else "plain"
+        tag = _tag(spec)
         msg = str(exc)
         shp = ""
         if mode == "full":
